@@ -174,12 +174,11 @@ class BaseFormOperator(Operator, BaseForm, Counted):
 
     def __repr__(self):
         """Default repr string construction for base form operators."""
-        r = f"{type(self).__name__}("
-        r += ", ".join(repr(op) for op in self.ufl_operands)
-        r += "; {self.ufl_function_space()!r}; "
-        r += ", ".join(repr(arg) for arg in self.argument_slots())
-        r += f"; derivatives={self.derivatives!r})"
-        return r
+        operands = "".join(f"{op!r}, " for op in self.ufl_operands)
+        return (
+            f"{type(self).__name__}({operands}function_space={self.ufl_function_space()!r}, "
+            f"derivatives={self.derivatives!r}, argument_slots={self.argument_slots()!r})"
+        )
 
     def _ufl_compute_hash_(self):
         """Compute a hash code for this expression. Used by sets and dicts.
